@@ -244,4 +244,4 @@ def split_file(path, n):
             out.write(line)
         if out:
             out.close()
-    return parts
+    return register_parts(parts)
